@@ -67,7 +67,16 @@ func (details *DocumentDetails) parseData(node tlv.TlvNode) error {
 		return fmt.Errorf("[parseData] ParseTags error: %w", err)
 	}
 
+	// a tag that is listed more than once is processed once: the handlers read every occurrence of their
+	// data object themselves, so each further list entry would multiply the decoded values (see DG11)
+	seen := make(map[tlv.TlvTag]bool, len(tagList))
+
 	for _, tag := range tagList {
+		if seen[tag] {
+			continue
+		}
+		seen[tag] = true
+
 		if err := details.processTag(tag, node); err != nil {
 			return fmt.Errorf("[parseData] processTag(%x) error: %w", tag, err)
 		}
